@@ -5,7 +5,7 @@ From Verif Require Import Base C11 C11_proofs C12 C12_proofs.
 
 (* nearest neighbour: for every leading index l and destination i the result holds the value of a
    source element (of the kind chosen as coded) whose distance key is minimal *)
-Theorem C12_nn : forall rank1 nn nf ne t data res, c12_nn rank1 nn nf ne t data = Some res ->
+Theorem C12_nn : forall nn nf ne t data res, c12_nn nn nf ne t data = Some res ->
   exists r0 kd, hd_error data = Some r0 /\
     c12_kind_by_length nn nf ne (Z.of_nat (length r0)) = Some kd /\
     length res = length data /\
@@ -19,13 +19,12 @@ Print Assumptions C12_nn.
 
 (* remapping onto the source grid's own elements (distinct positions) is the identity,
    whenever the coded choice of the element kind is the data's kind *)
-Theorem C12_identity : forall rank1 nn nf ne t data kd r0,
+Theorem C12_identity : forall nn nf ne t data kd r0,
   hd_error data = Some r0 ->
   c12_kind_by_length nn nf ne (Z.of_nat (length r0)) = Some kd ->
   c12_own_table (c12_table t kd) ->
   Forall (fun row => length row = length (c12_table t kd)) data ->
-  rank1 = false \/ length (c12_table t kd) <> 1%nat ->
-  c12_nn rank1 nn nf ne t data = Some data.
+  c12_nn nn nf ne t data = Some data.
 Proof. exact c12_nn_identity. Qed.
 Print Assumptions C12_identity.
 
@@ -138,18 +137,10 @@ Theorem C12_dims : forall dims dest, dims <> [] ->
 Proof. exact c12_out_dims_spec. Qed.
 Print Assumptions C12_dims.
 
-(* nearest-neighbour remapping answers whenever the trailing length is one of the counts, a single
-   destination element included, unless the data are one-dimensional and there is one destination element *)
-Theorem C12_nn_answers : forall rank1 nn nf ne t data r0 kd,
+(* nearest-neighbour remapping answers whenever the trailing length is one of the counts, whatever the
+   rank of the data and the number of destination elements (one included) *)
+Theorem C12_nn_answers : forall nn nf ne t data r0 kd,
   hd_error data = Some r0 -> c12_kind_by_length nn nf ne (Z.of_nat (length r0)) = Some kd ->
-  rank1 = false \/ length (c12_table t kd) <> 1%nat ->
-  exists res, c12_nn rank1 nn nf ne t data = Some res.
+  exists res, c12_nn nn nf ne t data = Some res.
 Proof. exact c12_nn_answers. Qed.
 Print Assumptions C12_nn_answers.
-
-(* ... in which case the code as it stands squeezes the result to 0-d and raises *)
-Theorem C12_nn_rank1_single_destination_refuted : exists nn nf ne t data,
-  hd_error data = Some [1#1; 2#1; 3#1]%Q /\ c12_kind_by_length nn nf ne 3 = Some C11Nodes /\
-  c12_table t C11Nodes = [[5; 1; 7]] /\ c12_nn true nn nf ne t data = None.
-Proof. exact c12_nn_rank1_single_destination_refuted. Qed.
-Print Assumptions C12_nn_rank1_single_destination_refuted.
